@@ -1187,14 +1187,6 @@ fn near_miss(text: &str, rng: &mut Rng) -> String {
     chars.into_iter().collect()
 }
 
-fn too_many_digits(text: &str) -> bool {
-    let mut run = 0;
-    for c in text.chars() {
-        if c.is_ascii_digit() { run += 1; if run >= 18 { return true; } } else { run = 0; }
-    }
-    false
-}
-
 /// `text.parse::<Program>()` against the Lean model of the grammar and the tree builder: accepted or not, and the tree.
 fn asp_parse(seed: u64, n: usize, corpus: Option<&Path>) -> Vec<Case> {
     let mut texts: Vec<(String, String)> = vec![];
@@ -1216,7 +1208,6 @@ fn asp_parse(seed: u64, n: usize, corpus: Option<&Path>) -> Vec<Case> {
     }
     let mut cases = vec![];
     for (origin, text) in texts {
-        if too_many_digits(&text) { continue; }
         let t = text.clone();
         let imp = guarded(move || match t.parse::<asp::Program>() {
             Ok(p) => format!("(ok {})", sexp::program(&p)),
@@ -1257,7 +1248,6 @@ fn fol_parse(seed: u64, n: usize, corpus: Option<&Path>) -> Vec<Case> {
     }
     let mut cases = vec![];
     for (origin, kind, text) in texts {
-        if too_many_digits(&text) { continue; }
         let t = text.clone();
         let imp = guarded(move || match kind {
             "theory" => match t.parse::<fol::Theory>() { Ok(x) => format!("(ok {})", sexp::theory(&x)), Err(_) => "(error)".to_string() },
